@@ -158,7 +158,7 @@ class Obligation:
 
 class ClassDecl:
     def __init__(self, name, module=None, fields=None, base=None, pyname=None,
-                 truthy=True, methods=None):
+                 truthy=True, methods=None, bag=False):
         self.name = name
         self.module = module
         self.pyname = pyname or name     # class name in the source
@@ -166,6 +166,11 @@ class ClassDecl:
         self.base = base
         self.truthy = truthy
         self.methods = dict(methods or {})   # name -> python callable (assumed contract)
+        # bag=True: instances are attribute bags (plain __dict__ objects whose
+        # attributes hold values of any kind, e.g. einfo's stand-ins): undeclared
+        # attributes are kept per path and per object, outside the SMT heap;
+        # objects of such a class must not be aliased through symbolic references
+        self.bag = bag
 
 
 class World:
